@@ -47,8 +47,10 @@ TEXT = {
             "character_direction over the compiled tables = the reference decision over the CLDR dictionary for every valid identifier; "
             "data (decide +kernel over all 710 CLDR layout entries) - with likelysubtags the result equals characterOrder for every locale, "
             "without it every deviation is a script-less identifier of a language CLDR lists with more than one direction. "
+            "the two unconditional clauses as one executable function (Spec.directionClause) met by the model for every input "
+            "(direction_meets_clause), evaluated by the check on the layout the CLDR files determine. "
             "Correspondence: dir on the 710 names (+ a variant) and the triple streams, in builds with and without the feature; the layout "
-            "JSON judges the implementation directly.",
+            "JSON and the clause oracle judge the implementation directly.",
             "generic proof of the decision code plus kernel-decided agreement with the complete CLDR layout data, two feature builds"),
     "C18": ("Theorems by decide +kernel over the complete data, re-decided whenever the compiled tables or the JSON change: each table "
             "strictly increasing in the binary search's integer key order; each table = the derivation (filter, map, sort) of the CLDR "
@@ -73,21 +75,28 @@ TEXT = {
             "idempotent, variants/extensions untouched, false leaves unchanged. The clause minimize(maximize(x)) = minimize(x) is FALSE for "
             "the code and the model (kernel-checked witness und-Hant-DE on the shipped tables; it contradicts the 'first of three forms' clause) "
             "- proved in the strongest true form (minimize_maximize_partial) and recorded as a known finding. Correspondence: "
-            "min/limin/liminmax/locmin on the triple streams.",
+            "min/limin/liminmax/locmin on the triple streams; the dictionary formulation over the CLDR data judges what the methods change.",
             "proof by case analysis under tablesWF; one clause refuted with a kernel-checked witness"),
     "C11": ("Theorems for arbitrary values: LangId.isMatch = the field-wise wildcard specification; flags off = equality; symmetric under "
             "swapping operands with flags; reflexive; monotone in each flag; Locale.isMatch false with private tags, otherwise the id result, "
-            "independent of -u-/-t-. Correspondence: the full product domain of ids x flags, with and without extensions.",
+            "independent of -u-/-t-; the executable oracle of the check (Spec/Match.lean, written from the statement) is proved equal to the model "
+            "(isMatch_eq_oracle, locale_isMatch_eq_oracle). Correspondence: the full product domain of ids x flags, with and without "
+            "extensions, also with present-but-empty variant lists (Some([]), built through from_raw_parts_unchecked) on either side; the "
+            "oracle judges the implementation's answers directly.",
             "proof of equivalence with the declarative matching predicate"),
     "C12": ("Theorems: the derived Ord (cmpLi/cmpLoc: field by field, None first, lexicographic) is a strict total order with cmp = Equal iff "
             "equal; equal values feed equal hash streams (and the stream is injective); on invariant-satisfying values x = y iff "
-            "display x = display y (injectivity from the C05 round trip); == &str iff the canonical text equals the string. "
-            "Correspondence: eq / cmp / hash-eq / string-eq on pairs built along different routes.",
+            "display x = display y (injectivity from the C05 round trip); the abstraction to the set/map model is injective on the invariant, so two "
+            "histories with the same abstract end state end in the same value (routes_agree); == &str iff the canonical text equals the "
+            "string. Correspondence: eq / cmp / hash-eq / string-eq on pairs; each value against itself rebuilt along 8 routes through the "
+            "safe API; LanguageIdentifier and every subtag type compared with strings around their text; the field-by-field order is "
+            "recomputed from the rendered fields and judges the implementation.",
             "proof of order laws and of display injectivity via the round trip"),
     "C17": ("Theorems: unpack(pack s) = s and pack injective for every valid subtag of each type (fits u64/u32, never 0); "
             "from_parts(into_parts x) = x on the invariant (exact characterisation of when it fails: Some([]) / unsorted); from_parts with "
             "variants in any order with duplicates = parsing the joined string; Locale parts with the extension string re-parsed (C05). "
-            "Correspondence: parts / raw round trips and from_parts vs parse on generated values.",
+            "Correspondence: parts / raw round trips (by value and by reference) and from_parts vs parse on generated values, and the parts round "
+            "trip after every step of the operation histories.",
             "proof of pack/unpack inverse and of from_parts = parse"),
     "C03": ("Theorems against the independent three-zone oracle (Spec/Locale.lean, written from the UTS #35 grammar): must_accept - every "
             "token list the strict grammar reads is parsed to exactly the oracle's value (all subtags, normalised); never_drops - every "
@@ -100,7 +109,7 @@ TEXT = {
             "Locale, LanguageIdentifier, ExtensionsMap and each subtag type; (ii) on token lists with arbitrary context: order/repetition of "
             "variants (also inside a tlang) and of -u- attributes, order of keywords / tfields with distinct keys, and swapping the -u- and "
             "-t- sections give the same Res (or, for ill-formed bodies, both fail). Correspondence: pairs of spellings related by these "
-            "transformations (also rejected ones).",
+            "transformations (also rejected ones), at three entry points: Locale, LanguageIdentifier, ExtensionsMap.",
             "proof that every parser factors through case/separator normalisation; permutation lemmas on the functional forms"),
     "C10": ("Refinement theorem: for every value with the invariant and every public call with arbitrary argument bytes, the abstract value "
             "and the output equal those of the reference model (Spec/AbsOps.lean: sorted sets, a sorted multiset, ordered maps; written "
@@ -118,11 +127,13 @@ TEXT = {
     "C19": ("Theorems about the model of serde.rs: serialize = the canonical string (ASCII letters, digits, '-' only, so no JSON escape); "
             "deserialize(str s) = from_bytes s; deserialize(serialize x) = ok x for every obtainable x (C05); non-string and ill-formed "
             "inputs are errors; never a panic. serde / serde_json are modelled by contract, exercised by the serde stream (JSON texts with "
-            "random escapes, non-string values, ill-formed text) through from_str and from_value.",
+            "random escapes, non-string values, ill-formed text) through from_str and from_value; every JSON string is also decoded and handed to "
+            "FromStr, and the two results must agree.",
             "proof over a model of the serde impls; serde_json by contract, exercised by correspondence"),
     "C13": ("Theorems: every input accepted by LanguageIdentifier is accepted by Locale with the same id, no extensions and the same string; "
             "for accepted locale strings without empty subtags the id is the parse of the part before the first singleton; the conversions "
-            "are identities / projections. Correspondence: both parsers on the same bytes.",
+            "are identities / projections. Correspondence: both parsers on the same bytes; the conversions also on identifiers with a present-but-"
+            "empty variant list; a well-formed locale string (zone oracle of C03) that Locale rejects is reported as having no id.",
             "proof over the shared language-id state machine"),
     "C15": ("Theorems *_exact: each of Language/Script/Region/Variant::from_bytes (model) succeeds exactly on its UTS #35 production for every "
             "byte string and stores the case-normalised text; und is the empty language (default, clear, TryFrom(None)); as_str/Display/== "
